@@ -16,11 +16,16 @@ step = {'kind': 'set',     'in': [[k, data]..], 'pairs': [[k, tree]..]}
      | {'kind': 'fail',    'in': .., 'swallow': bool, 'onError': tree | None}   a step that raises
        ValueError (harness step vfail); save_error stores format(onError) as
        runErrors[-1]['customError']
+     | {'kind': 'call', 'in': .., 'group': [step..], 'foreach': [tree..]?}   pypyr.steps.call of a step
+       group holding `group` (inner steps carry no foreach); after each call returns,
+       Step.reset_context_counters puts the step's OWN current foreach item back into context['i']
      a `set` pair value / a py target may be {'pyref': [key, path]}: the object reached from
        context[key] by the subscripts path ([['last']] = [-1], [['key', s]] = ['s']), BY REFERENCE
        (set: {k: !py "key[-1]['s']"}  /  py: "key[-1]['s'].append(z)")
      optional on every kind except configvars: 'foreach': [tree..]  (non-empty literal)
      | {'kind': 'add', ...} / {'kind': 'foreachref', ...}: outside the model (monitor-only), raw yaml
+threads = None | {'schedules': [[0,1,1,0..]..], 'same': bool}: two runs on real threads, one block of
+       operations at a time as the schedule says; same = both threads run main (ONE cached pipeline)
 case = {'main': [step..], 'other': [step..], 'vars': [[k, data]..], 'dict_in': [[k, data]..],
         'shortcut': bool, 'threads': None | {'schedules': [[0,1,1,0..]..]},
         'parser': None | 'list' | 'keys' | 'keyvaluepairs' | 'string'   (context_parser of main),
@@ -36,12 +41,13 @@ Strings and bools only come from context parsers; observations encode them as in
 """
 import json
 
-RESERVED = {'set', 'append', 'contextMerge', 'defaults', 'py', 'contextCopy', 'add', 'vfail',
+RESERVED = {'call', 'set', 'append', 'contextMerge', 'defaults', 'py', 'contextCopy', 'add', 'vfail',
             'c12tid', 'c12turn'}
 STEP_MODULE = {'set': 'pypyr.steps.set', 'append': 'pypyr.steps.append',
                'merge': 'pypyr.steps.contextmerge', 'default': 'pypyr.steps.default',
                'py': 'pypyr.steps.py', 'copy': 'pypyr.steps.contextcopy',
-               'configvars': 'pypyr.steps.configvars', 'add': 'pypyr.steps.add', 'fail': 'vfail'}
+               'configvars': 'pypyr.steps.configvars', 'add': 'pypyr.steps.add', 'fail': 'vfail',
+               'call': 'pypyr.steps.call'}
 
 PARSER_MODULE = {'list': 'pypyr.parser.list', 'keys': 'pypyr.parser.keys',
                  'keyvaluepairs': 'pypyr.parser.keyvaluepairs', 'string': 'pypyr.parser.string'}
@@ -128,36 +134,53 @@ def body_arg(st):
     return None
 
 
+def emit_step(st, turn, indent, extra_in=None):
+    lines = []
+    pad = ' ' * indent
+    if turn:
+        lines.append(f'{pad}- c12_turn')
+    if st['kind'] == 'raw':
+        lines += [pad + ln for ln in st['yaml'].splitlines()]
+    elif st['kind'] == 'configvars':
+        lines.append(f'{pad}- pypyr.steps.configvars')
+    else:
+        lines.append(f'{pad}- name: {STEP_MODULE[st["kind"]]}')
+        items = [f'{k}: {yflow(v) if not isinstance(v, str) else v}' for k, v in st.get('in', [])]
+        ba = extra_in or body_arg(st)
+        if ba:
+            items.append(f'{ba[0]}: {ba[1]}')
+        lines.append(f'{pad}  in: {{' + ', '.join(items) + '}')
+        if st.get('foreach'):
+            lines.append(f'{pad}  foreach: ' + yflow({'l': st['foreach']}))
+        if st.get('retry'):
+            lines.append(f'{pad}  retry: {{max: ' + str(st['retry']) + '}')
+        if st['kind'] == 'fail':
+            if st.get('swallow'):
+                lines.append(f'{pad}  swallow: true')
+            if st.get('onError') is not None:
+                lines.append(f'{pad}  onError: ' + yflow(st['onError']))
+    lines.append(f'{pad}- c12_probe')
+    return lines
+
+
 def emit_pipeline(steps, turn=False, parser=None):
     """yaml text; real step j is at index 2j (+ a turnstile step before it when turn),
-    each followed by the probe step."""
+    each followed by the probe step; the group of call step j is the step-group sub<j>."""
     lines = ['steps:']
-    for st in steps:
-        if turn:
-            lines.append('  - c12_turn')
-        if st['kind'] == 'raw':
-            lines += ['  ' + ln for ln in st['yaml'].splitlines()]
-        elif st['kind'] == 'configvars':
-            lines.append('  - pypyr.steps.configvars')
+    groups = []
+    for j, st in enumerate(steps):
+        if st['kind'] == 'call':
+            lines += emit_step(st, turn, 2, ('call', f'sub{j}'))
+            g = [f'sub{j}:']
+            for inner in st['group']:
+                g += emit_step(inner, turn, 2)
+            groups.append(g)
         else:
-            lines.append(f'  - name: {STEP_MODULE[st["kind"]]}')
-            items = [f'{k}: {yflow(v) if not isinstance(v, str) else v}' for k, v in st.get('in', [])]
-            ba = body_arg(st)
-            if ba:
-                items.append(f'{ba[0]}: {ba[1]}')
-            lines.append('    in: {' + ', '.join(items) + '}')
-            if st.get('foreach'):
-                lines.append('    foreach: ' + yflow({'l': st['foreach']}))
-            if st.get('retry'):
-                lines.append('    retry: {max: ' + str(st['retry']) + '}')
-            if st['kind'] == 'fail':
-                if st.get('swallow'):
-                    lines.append('    swallow: true')
-                if st.get('onError') is not None:
-                    lines.append('    onError: ' + yflow(st['onError']))
-        lines.append('  - c12_probe')
+            lines += emit_step(st, turn, 2)
     if len(lines) == 1:
         lines = ['steps: []']
+    for g in groups:
+        lines += g
     if parser:
         lines.insert(0, f'context_parser: {PARSER_MODULE[parser]}')
     return '\n'.join(lines) + '\n'
@@ -176,8 +199,16 @@ def has_set(t):
     return False
 
 
+def all_steps(case):
+    for p in ('main', 'other'):
+        for st in case[p]:
+            yield st
+            for inner in st.get('group', []):
+                yield inner
+
+
 def in_model(case):
-    for st in case['main'] + case['other']:
+    for st in all_steps(case):
         if st['kind'] in ('add', 'raw') or any(has_set(v) for _, v in st.get('in', [])):
             return False
     return not any(has_set(v) for _, v in case['vars'] + case['dict_in'])
@@ -190,6 +221,9 @@ def roots(case):
         for j, st in enumerate(case[pname]):
             for k, v in st.get('in', []):
                 out.append(((pname, j, k), v))
+            for m, inner in enumerate(st.get('group', [])):
+                for k, v in inner.get('in', []):
+                    out.append(((pname, (j, m), k), v))
     for k, v in case['vars']:
         out.append((('vars', None, k), v))
     if case.get('shortcut') and case.get('sc_parser_args') is not None:
@@ -302,23 +336,46 @@ def body_ops(st):
     raise ValueError(k)
 
 
-def step_ops(st, root_index, where, var_roots):
-    """ops of one step followed by its probe. root_index: {(pname, j, key): n}."""
+def step_blocks(st, root_index, where, var_roots):
+    """the operations of one step and its probe, as BLOCKS: a new block starts wherever the
+    threaded tier has a turnstile (before the step, and before every step of a called group)."""
     if st['kind'] == 'configvars':
-        return [('InjectIn', k, n, 'TPConfigVars') for k, n in var_roots] + [('Probe',)]
-    ops = [('InjectIn', k, root_index[(where[0], where[1], k)], 'TPIn') for k, _ in st.get('in', [])]
-    body = body_ops(st)
-    if st.get('foreach'):
-        ops.append(('SetFmt', '$fe', {'l': st['foreach']}))
-        for n in range(len(st['foreach'])):
-            ops.append(('BindElem', 'i', '$fe', n))
+        return [[('InjectIn', k, n, 'TPConfigVars') for k, n in var_roots] + [('Probe',)]]
+    inject = [('InjectIn', k, root_index[(where[0], where[1], k)], 'TPIn') for k, _ in st.get('in', [])]
+    unset = [('Unset', k) for k, _ in st.get('in', [])] + [('Probe',)]
+    items = st.get('foreach')
+    if st['kind'] != 'call':
+        ops = list(inject)
+        body = body_ops(st)
+        if items:
+            ops.append(('SetFmt', '$fe', {'l': items}))
+            for n in range(len(items)):
+                ops.append(('BindElem', 'i', '$fe', n))
+                ops += body
+            ops.append(('Unset', '$fe'))
+        else:
             ops += body
-        ops.append(('Unset', '$fe'))
-    else:
-        ops += body
-    ops += [('Unset', k) for k, _ in st.get('in', [])]
-    ops.append(('Probe',))
-    return ops
+        return [ops + unset]
+    # pypyr.steps.call: the called group's steps run (each its own block); when the call returns,
+    # Step.reset_context_counters puts THIS step's current foreach item back into context['i']
+    blocks = [list(inject)]
+    if items:
+        blocks[0].append(('SetFmt', '$fe', {'l': items}))
+    for n in range(len(items) if items else 1):
+        if items:
+            blocks[-1].append(('BindElem', 'i', '$fe', n))
+        for m, inner in enumerate(st['group']):
+            blocks += step_blocks(inner, root_index, (where[0], (where[1], m)), var_roots)
+        if items:
+            blocks[-1].append(('BindElem', 'i', '$fe', n))
+    if items:
+        blocks[-1].append(('Unset', '$fe'))
+    blocks[-1] += unset
+    return blocks
+
+
+def step_ops(st, root_index, where, var_roots):
+    return [o for b in step_blocks(st, root_index, where, var_roots) for o in b]
 
 
 def render_op(o):
@@ -363,7 +420,7 @@ def pipeline_ops(case, pname, blocks=False):
     rs = roots(case)
     root_index = {w: n for n, (w, _) in enumerate(rs)}
     var_roots = [(w[2], n) for n, (w, _) in enumerate(rs) if w[0] == 'vars']
-    bl = [step_ops(st, root_index, (pname, j), var_roots) for j, st in enumerate(case[pname])]
+    bl = [b for j, st in enumerate(case[pname]) for b in step_blocks(st, root_index, (pname, j), var_roots)]
     if pname == 'main':
         # the parser runs before the first step (in the threaded tier: before the first turnstile,
         # where it only creates fresh objects, so it commutes with the other thread's steps)
@@ -449,10 +506,14 @@ def coq_runs(case, order):
     return '(fun rt => [' + '; '.join(specs[p] for p in order) + '])'
 
 
+def thread_pipes(case):
+    return ('main', 'main') if (case.get('threads') or {}).get('same') else ('main', 'other')
+
+
 def coq_threads(case):
     """Coq term `fun rt => [thread; thread]`, a thread = (init, [ops of step 0; ops of step 1; ...])."""
     ths = []
-    for pname in ('main', 'other'):
+    for pname in thread_pipes(case):
         blocks = ['[' + '; '.join(render_op(o) for o in b) + ']' for b in pipeline_ops(case, pname, True)]
         ths.append(f'({cpairs(case["dict_in"])}, [' + '; '.join(blocks) + '])')
     return '(fun rt => [' + '; '.join(ths) + '])'
